@@ -24,6 +24,12 @@ abbrev PE := persistentEntropy (α := ℝ) Real.log (fun n => (n : ℝ))
 
 abbrev E1 := entropyOne (α := ℝ) Real.log (fun n => (n : ℝ))
 
+/-- one diagram with `keep_inf = False`: filter on the death, then `E1` -/
+abbrev ED := entropyDrop (α := ℝ) Real.log (fun n => (n : ℝ))
+
+/-- a diagram all of whose coordinates are finite, as the routine receives it -/
+abbrev fin (d : List (ℝ × ℝ)) : Dgm ℝ := d.map fun p => (some p.1, some p.2)
+
 /-! ### helper facts about list sums -/
 
 private lemma sum_pos_of_pos : ∀ (l : List ℝ), l ≠ [] → (∀ x ∈ l, 0 < x) → 0 < l.sum
@@ -201,10 +207,28 @@ theorem nonpositive_raises (norm : Bool) (d : List (ℝ × ℝ)) (h : ∃ p ∈ 
     exact ⟨p.2 - p.1, List.mem_map.mpr ⟨p, hp, rfl⟩, by simpa using hle⟩
   simp [E1, entropyOne, this]
 
+/-- **entry-point form of reordering**: what the routine returns for one diagram (value *or*
+    error, normalised or not) does not depend on the order of the bars. -/
+theorem E1_perm (norm : Bool) {d d' : List (ℝ × ℝ)} (h : d.Perm d') : E1 norm d = E1 norm d' := by
+  have hl := lengths_perm h
+  simp only [E1, entropyOne, hl.all_eq, hl.length_eq, H_perm hl]
+
+/-- **entry-point form of rescaling** by `c > 0`: value *or* error unchanged (a negative factor
+    would turn every bar round and make the routine raise, so `0 < c` is the guard here). -/
+theorem E1_scale (norm : Bool) (d : List (ℝ × ℝ)) (c : ℝ) (hc : 0 < c) :
+    E1 norm (d.map fun p => (c * p.1, c * p.2)) = E1 norm d := by
+  have hall : ((lengths d).map (c * ·)).all (fun x => decide (0 < x))
+      = (lengths d).all (fun x => decide (0 < x)) := by
+    rw [List.all_map]
+    apply List.all_congr rfl
+    intro x
+    simp [Function.comp, mul_pos_iff_of_pos_left hc]
+  simp only [E1, entropyOne, lengths_scale, hall, H_scale _ c hc.ne', List.length_map]
+
 /-- **a list of diagrams yields the vector of individual entropies** (same length, same order),
     with infinite bars dropped when `keep_inf = False` … -/
 theorem list_is_map_drop (vinf : Option ℝ) (norm : Bool) (dgms : List (Dgm ℝ)) :
-    PE false vinf norm dgms = (dgms.map dropInf).mapM (E1 norm) := by
+    PE false vinf norm dgms = dgms.mapM (ED norm) := by
   simp [PE, persistentEntropy]
 
 /-- … and replaced by the supplied value when `keep_inf = True`. -/
@@ -216,15 +240,72 @@ theorem keep_without_value_raises (norm : Bool) (dgms : List (Dgm ℝ)) :
     PE true none norm dgms = .error .needValInf := by
   simp [PE, persistentEntropy]
 
-/-- **infinite bars are dropped**: `dropInf` keeps exactly the bars with two finite ends, in order -/
-theorem inf_dropped (d : Dgm ℝ) (b e : ℝ) :
-    dropInf (d ++ [(some b, none)]) = dropInf d ∧ dropInf (d ++ [(some b, some e)]) = dropInf d ++ [(b, e)] := by
+/-- **infinite bars are dropped**: `dropInf` removes exactly the bars whose *death* is infinite
+    (whatever their birth), anywhere in the diagram, and keeps every other bar, in order -/
+theorem inf_dropped (d1 d2 : Dgm ℝ) (b : Option ℝ) (e : ℝ) :
+    dropInf (d1 ++ [(b, none)] ++ d2) = dropInf d1 ++ dropInf d2 ∧
+    dropInf (d1 ++ [(b, some e)] ++ d2) = dropInf d1 ++ [(b, e)] ++ dropInf d2 := by
   simp [dropInf, List.filterMap_append]
 
-/-- **infinite bars are replaced by the supplied value** -/
-theorem inf_substituted (v : ℝ) (d : Dgm ℝ) (b : ℝ) :
-    substInf v (d ++ [(some b, none)]) = substInf v d ++ [(b, v)] := by
+theorem dropInf_fin (d : List (ℝ × ℝ)) : dropInf (fin d) = d.map fun p => (some p.1, p.2) := by
+  induction d with
+  | nil => rfl
+  | cons p t ih =>
+    simp only [fin, List.map_cons] at ih ⊢
+    simp only [dropInf, List.filterMap_cons] at ih ⊢
+    rw [ih]
+
+theorem finiteBirths_some (d : List (ℝ × ℝ)) : finiteBirths (d.map fun p => (some p.1, p.2)) = some d := by
+  induction d with
+  | nil => rfl
+  | cons p t ih => simp only [List.map_cons, finiteBirths, ih, Option.map_some]
+
+private lemma finiteBirths_none (l1 l2 : List (Option ℝ × ℝ)) (e : ℝ) :
+    finiteBirths (l1 ++ (none, e) :: l2) = none := by
+  induction l1 with
+  | nil => rfl
+  | cons p t ih =>
+    obtain ⟨b, e'⟩ := p
+    cases b with
+    | none => rfl
+    | some b => simp only [List.cons_append, finiteBirths, ih, Option.map_none]
+
+/-- **entry-point form of "infinite bars are dropped"**: with `keep_inf = False` a bar with an
+    infinite death anywhere among finite bars does not change what the routine returns. -/
+theorem ED_inf_dropped (norm : Bool) (d1 d2 : List (ℝ × ℝ)) (b : Option ℝ) :
+    ED norm (fin d1 ++ [(b, none)] ++ fin d2) = E1 norm (d1 ++ d2) := by
+  have h : dropInf (fin d1 ++ [(b, none)] ++ fin d2) = (d1 ++ d2).map fun p => (some p.1, p.2) := by
+    rw [(inf_dropped _ _ b 0).1, dropInf_fin, dropInf_fin, List.map_append]
+  simp only [ED, entropyDrop, h, finiteBirths_some]
+
+theorem ED_fin (norm : Bool) (d : List (ℝ × ℝ)) : ED norm (fin d) = E1 norm d := by
+  simp only [ED, entropyDrop, dropInf_fin, finiteBirths_some]
+
+/-- **the filter looks at the death only**: a bar with an infinite *birth* and a finite death is
+    not dropped; its length is `-∞`, and the routine raises (`[inf, 1.0]` → "born after dying"). -/
+theorem inf_birth_raises (norm : Bool) (d1 d2 : Dgm ℝ) (e : ℝ) :
+    ED norm (d1 ++ [(none, some e)] ++ d2) = .error .bornAfterDying := by
+  have h : dropInf (d1 ++ [(none, some e)] ++ d2) = dropInf d1 ++ (none, e) :: dropInf d2 := by
+    rw [(inf_dropped d1 d2 none e).2]; simp
+  simp only [ED, entropyDrop, h, finiteBirths_none]
+
+/-- **infinite entries are replaced by the supplied value** (`np.where(dgm == inf, val_inf, dgm)`:
+    births and deaths alike), anywhere in the diagram -/
+theorem inf_substituted (v : ℝ) (d1 d2 : Dgm ℝ) (p : Option ℝ × Option ℝ) :
+    substInf v (d1 ++ [p] ++ d2) = substInf v d1 ++ [(p.1.getD v, p.2.getD v)] ++ substInf v d2 := by
   simp [substInf]
+
+/-- the usual case: an essential bar `(b, ∞)` becomes `(b, v)` -/
+theorem inf_substituted_death (v : ℝ) (d1 d2 : Dgm ℝ) (b : ℝ) :
+    substInf v (d1 ++ [(some b, none)] ++ d2) = substInf v d1 ++ [(b, v)] ++ substInf v d2 := by
+  simp [substInf]
+
+theorem substInf_fin (v : ℝ) (d : List (ℝ × ℝ)) : substInf v (fin d) = d := by
+  induction d with
+  | nil => rfl
+  | cons p t ih =>
+    simp only [substInf, fin, List.map_cons, Option.getD_some] at ih ⊢
+    rw [ih]
 
 /-! ### non-vacuity: the hypotheses are met by concrete non-trivial barcodes -/
 
@@ -232,6 +313,14 @@ example : (∀ x ∈ lengths [((0:ℝ), (1:ℝ)), (1, 3), (2, 7)], 0 < x) ∧ 2 
   simp [lengths]; norm_num
 
 example : ∃ p ∈ [((0:ℝ), (1:ℝ)), (2, 2)], p.2 - p.1 ≤ 0 := ⟨(2, 2), by simp, by norm_num⟩
+
+/-- `E1_perm` / `E1_scale` are used on barcodes with several different bars -/
+example : [((0:ℝ), (1:ℝ)), (1, 3), (2, 7)].Perm [((2:ℝ), (7:ℝ)), (0, 1), (1, 3)] :=
+  (List.perm_append_comm (l₁ := [((0:ℝ), (1:ℝ)), (1, 3)]) (l₂ := [((2:ℝ), (7:ℝ))]))
+
+/-- the death-only filter on a concrete diagram: `[[0,1],[inf,1],[2,inf]]` keeps `[inf,1]` -/
+example : dropInf [(some (0:ℝ), some (1:ℝ)), (none, some 1), (some 2, none)] = [(some 0, 1), (none, 1)] := by
+  simp [dropInf]
 
 end
 
